@@ -18,7 +18,8 @@ META = {
         "service elements of all three flavours (one of them an empty composite-like pool that evaluates to False) next to plain and shipped elements, optional logging section and "
         "extra section, .yaml / .yml) and Python configurations (pipelines built with >>, objects bound to "
         "names); SIGINT 0.2-1.0 s after every service has beaten >= 4 times (after a forced gc.collect inside "
-        "the services); kind=invalid: unknown section, missing pipeline, constructor error, YAML syntax error, "
+        "the services); three daemons per run get a configuration with 60-200 services and run under line-level delay injection "
+        "(installed through a sitecustomize module of the harness); kind=invalid: unknown section, missing pipeline, constructor error, YAML syntax error, "
         "unknown tag, Python config raising, unknown / missing extension, missing file; kind=failing: a service "
         "raising or returning a value after k beats. Non-trivial = every daemon run; distinct by configuration."
     ),
@@ -102,7 +103,22 @@ def python_text(rnd, elems):
     return "\n".join(imports + body) + "\n"
 
 
+def gen_many(rnd):
+    """A valid configuration with many cheap services, run under line-level delay injection: construction in the
+    asyncio thread races with the accept loop's polling in the trio thread."""
+    n = rnd.choice([60, 120, 200])
+    elems = [["VSvcDeco" if i % 3 else "VSvcThread", "svc%d" % i, {"label": "svc%d" % i, "period": 0.2}] for i in range(n - 1)]
+    elems.append(["VSvcPool", "svc%d" % (n - 1), {"label": "svc%d" % (n - 1), "period": 0.2}])
+    fmt = rnd.choice(["yaml", "python"])
+    text = yaml_text(rnd, elems, False, False) if fmt == "yaml" else python_text(rnd, elems)
+    return {"kind": "valid", "format": fmt, "elems": elems, "suffix": ".yaml" if fmt == "yaml" else ".py", "logging": False, "extra": False,
+            "signal_after": 0.3, "defect": None, "missing_file": False, "slow_init": False, "text": text, "many": True,
+            "inject": {"seed": rnd.randint(0, 10**6), "p_yield": 0.5, "p_sleep": 0.02, "max_sleep": 0.002}}
+
+
 def gen_case(rnd, spec):
+    if spec["case_index"] == 1 and spec["shard"] in (2, 3, 4):
+        return gen_many(rnd)
     kind = ["valid", "failing", "invalid", "valid"][(spec["case_index"] + spec["shard"]) % 4] if rnd.random() < 0.8 else rnd.choice(["valid", "invalid", "failing"])
     elems = gen_pipeline(rnd)
     fmt = rnd.choice(["yaml", "yaml", "python"])
@@ -167,17 +183,19 @@ def execute(case, result):
         for e in events:
             if e["kind"] == "beat":
                 beats[e["label"]] = max(beats.get(e["label"], -1), e["n"])
-        return all(beats.get(lb, -1) >= 4 for lb in labels)
+        return all(beats.get(lb, -1) >= (1 if case.get("many") else 4) for lb in labels)
 
     valid = case["kind"] == "valid"
     run = proc.run_daemon(None if case["missing_file"] else case["text"], case["suffix"], ready,
-                          signal_after=case["signal_after"] if valid else None, timeout=25.0)
+                          signal_after=case["signal_after"] if valid else None, timeout=25.0, inject=case.get("inject"),
+                          wait_ready=20.0 if case.get("many") else 8.0)
     problems = []
     what = "%s config%s" % (case["format"], (" with defect: %s" % case["defect"]) if case["defect"] else "")
 
     def bad(msg):
         mech = None
-        if case.get("slow_init") and "AttributeError" in run.stderr and "object has no attribute" in run.stderr and run.of("ctor-begin"):
+        widened = (case.get("slow_init") and run.of("ctor-begin")) or case.get("many")  # slow constructor, or injected delays
+        if widened and "AttributeError" in run.stderr and "object has no attribute" in run.stderr:
             # run() was started while the (slow) constructor of the service was still executing
             mech = "C13/service-started-before-init-completes"
         problems.append(("%s: %s\n--- config ---\n%s--- stderr (tail) ---\n%s" % (what, msg, case["text"], run.stderr[-1500:]), mech))
@@ -208,7 +226,9 @@ def execute(case, result):
             recent = [e for e in at_signal if e["n"] >= 4]
             late = [e for e in run.events if e["kind"] == "beat" and e["label"] == lb and e["n"] > 4]
             waiter = any(e[0] == "VSvcWaiter" and e[1] == lb for e in case["elems"])
-            if waiter:
+            if case.get("many"):
+                result.count("services_in_large_injected_configs")
+            elif waiter:
                 ended_early = [e for e in run.events[: run.events_at_signal] if e["kind"] == "waiter-ended" and e["label"] == lb]
                 if ended_early:
                     bad("service %s (waiting on a private future) ended before the daemon was stopped" % lb)
@@ -254,7 +274,7 @@ def run_shard(spec):
 
 def finish(total, tier):
     need = ["daemons_valid", "daemons_invalid", "daemons_failing", "configs_yaml", "configs_python", "services_checked_trio",
-            "services_checked_asyncio", "services_checked_threading", "failing_services_after_start", "valid_with_logging_section", "falsy_services_checked", "private_waiter_services_checked"]
+            "services_checked_asyncio", "services_checked_threading", "failing_services_after_start", "valid_with_logging_section", "falsy_services_checked", "private_waiter_services_checked", "services_in_large_injected_configs"]
     for name in need:
         if not total.counters.get(name) and not total.violations:
             total.inconc("monitor never observed: " + name)
